@@ -664,21 +664,47 @@ impl<'a> Lowerer<'a> {
                 }
             }
             Some(SyntaxKind::IfExpr) => {
-                let expr_children = self.child_exprs(node);
-                let raw_cond = expr_children
-                    .first()
-                    .map(|&id| self.lower_expr(id))
+                // condition, then-branch [`else` else-branch]; a branch written without braces may be
+                // an assignment, which the parser emits as two siblings (target, AssignExpr)
+                let mut cond_node = None;
+                let mut then_nodes = vec![];
+                let mut else_nodes = vec![];
+                let mut seen_else = false;
+                for &child in self.arena.children(node).into_iter().flatten() {
+                    let is_else = self
+                        .get_token_index(child)
+                        .and_then(|idx| self.tokens.get(idx))
+                        .is_some_and(|t| t.kind == TokenKind::Else);
+                    if is_else {
+                        seen_else = true;
+                    } else if self.arena.kind(child).map(Self::is_expr_kind) == Some(true) {
+                        if cond_node.is_none() {
+                            cond_node = Some(child);
+                        } else if seen_else {
+                            else_nodes.push(child);
+                        } else {
+                            then_nodes.push(child);
+                        }
+                    }
+                }
+                let raw_cond = cond_node
+                    .map(|id| self.lower_expr(id))
                     .unwrap_or_else(|| Expr::Error.into_id(loc.clone()));
                 // Unwrap parens around condition to match legacy AST
                 let cond = match raw_cond.to_expr() {
                     Expr::Paren(inner) => inner,
                     _ => raw_cond,
                 };
-                let then_expr = expr_children
-                    .get(1)
-                    .map(|&id| self.lower_expr(id))
-                    .unwrap_or_else(|| Expr::Error.into_id(loc.clone()));
-                let else_expr = expr_children.get(2).map(|&id| self.lower_expr(id));
+                let then_expr = if then_nodes.is_empty() {
+                    Expr::Error.into_id(loc.clone())
+                } else {
+                    self.lower_expr_sequence(&then_nodes)
+                };
+                let else_expr = if else_nodes.is_empty() {
+                    None
+                } else {
+                    Some(self.lower_expr_sequence(&else_nodes))
+                };
                 Expr::If(cond, then_expr, else_expr).into_id(loc)
             }
             Some(SyntaxKind::MatchExpr) => self.lower_match_expr(node, loc),
@@ -798,15 +824,20 @@ impl<'a> Lowerer<'a> {
             .map(|&pat| self.lower_match_pattern(pat))
             .unwrap_or(MatchPattern::Wildcard);
 
-        // Find body expression (skip MatchPattern node to avoid matching pattern's literals)
-        let body = children
+        // Find body expression (skip MatchPattern node to avoid matching pattern's literals).
+        // A body written without braces may be an assignment, which the parser emits as two
+        // siblings (target, AssignExpr).
+        let body_nodes: Vec<GreenNodeId> = children
             .iter()
-            .filter(|&&c| self.arena.kind(c) != Some(SyntaxKind::MatchPattern))
-            .find(|&&c| self.arena.kind(c).map(Self::is_expr_kind) == Some(true))
-            .map(|&c| self.lower_expr(c))
-            .unwrap_or_else(|| {
-                Expr::Error.into_id(self.location_from_span(self.node_span(node).unwrap_or(0..0)))
-            });
+            .copied()
+            .filter(|&c| self.arena.kind(c) != Some(SyntaxKind::MatchPattern))
+            .filter(|&c| self.arena.kind(c).map(Self::is_expr_kind) == Some(true))
+            .collect();
+        let body = if body_nodes.is_empty() {
+            Expr::Error.into_id(self.location_from_span(self.node_span(node).unwrap_or(0..0)))
+        } else {
+            self.lower_expr_sequence(&body_nodes)
+        };
 
         MatchArm { pattern, body }
     }
